@@ -61,6 +61,18 @@ JudgeC08 ==
   /\ (\A k \in 1..Len(o.ev) : o.ev[k].e = "act" => ~o.ev[k].ioc) \/ Say("C08", "action_in_attempt")
   /\ CreatedOK(o) \/ Say("C08", "discarded_not_deleted")
 
+\* C07: the tree of every operator expression is one of the trees the precedence and
+\* associativity rules admit (DTSet); sentences only, diagnostics are C04's business
+JudgeC07 ==
+  LET o == Recs[i].o
+      u == Strip(G, o.w)
+  IN \/ ~Returned(o) \/ o.diags # <<>>
+     \/ ~InL(G, o.en, u)
+     \/ LET ts == DTSet(G, u, o.en) IN
+        \/ ts = {}
+        \/ StripTree(G, o.tree) \in {NoActs(t) : t \in ts}
+        \/ Say("C07", "tree")
+
 JudgeC05 ==
   LET o == Recs[i].o
       u == Strip(G, o.w)
